@@ -50,7 +50,10 @@ theorem C12_stored_values_immune (cfg : Cfg) (hT : Total cfg) (tables : List (Na
     history — whatever is rebound, aliased or mutated in place after a collect, through whichever name — reading the
     stored column at the end shows, entry by entry, exactly what the reporter showed at the moment of its collect.
     This is what justifies treating collected model-level values as plain values in `Model/Collect.lean`.  It depends
-    on the copy: with `collect` storing the value itself the statement is false (refuted in the examples below). -/
+    on the copy: with `collect` storing the value itself the statement is false (refuted in the examples below).
+    Limits (review 3, M7): the objects of this heap are flat lists of ints and there is one string reporter, so a deep
+    and a shallow copy are the same function here — the theorem excludes storing the reference, it does not tell
+    `deepcopy` from `copy.copy`; nested values are compared on the real code only (oracle, 1-tuple-wrapped lists). -/
 theorem C12_deepcopy_makes_stored_values_immune (ops : List CollectHeap.HOp) :
     (CollectHeap.runH true CollectHeap.empty ops).col.map
         (CollectHeap.resolve (CollectHeap.runH true CollectHeap.empty ops).heap) =
